@@ -36,7 +36,8 @@ def main():
             ctx.budget_scale = 3      # broken obligation: widen the failing-input search
         ctx.driver = common.Driver()
         common.quiet_tf()
-        if replay is not None and hasattr(mod, "replay"):
+        has_case = replay is not None and ("case" in replay or replay.get("first_disagreement"))
+        if has_case and hasattr(mod, "replay"):
             mod.replay(ctx, replay)
         else:
             mod.run(ctx)
